@@ -59,7 +59,22 @@ def main():
                 assert rc == 0, "cannot revert patch under demo: " + o
                 res["demo_without_change"], o2 = tests(wt, flt)
             else:
-                res["demo"] = "script demo: confirm by hand"
+                script = None
+                for cand in ("demo%s.py" % sfx, "demo%s.sh" % sfx):
+                    if os.path.exists(os.path.join(out, cand)):
+                        script = os.path.join(out, cand)
+                if script:
+                    runner = "python3" if script.endswith(".py") else "bash"
+                    binp = os.path.join(TGT, "release", "rust_chess_engine")
+                    rc, o = sh("cargo build --release --offline 2>&1 | tail -2", cwd=wt)
+                    rc1, o1 = sh("timeout 900 %s %s %s" % (runner, script, binp), cwd=wt)
+                    res["demo_with_change"] = ["exit", rc1]
+                    rc, o = sh("git apply -R %s" % patch, cwd=wt)
+                    rc, o = sh("cargo build --release --offline 2>&1 | tail -2", cwd=wt)
+                    rc2, o2 = sh("timeout 900 %s %s %s" % (runner, script, binp), cwd=wt)
+                    res["demo_without_change"] = ["exit", rc2]
+                else:
+                    res["demo"] = "no runnable demo found"
         finally:
             subprocess.run("git -C /repo worktree remove --force %s" % wt, shell=True, capture_output=True)
     dst = os.path.join(VERIF, "seeded", name)
